@@ -155,6 +155,20 @@ pub fn gen_schedules(r: &mut Rng) -> SchedulesDb {
         }
         db.year.push(Schedule { id: uid(r), name: format!("y{}", i), values });
     }
+    // a daily schedule that is referenced (by a weekly schedule in use) but never comes into effect:
+    // the weekly schedule only covers the first days of the year, or is repeated zero times
+    if r.chance(1, 2) {
+        let d_rare = ScheduleDay { id: uid(r), name: "d_rare".into(), values: (0..24).map(|h| if h % 2 == 0 { 1.0 } else { 0.0 }).collect() };
+        let first = r.range(1, 5) as u32;
+        let w_rare = ScheduleWeek { id: uid(r), name: "w_rare".into(), values: vec![(db.day[0].id, first), (d_rare.id, 7 - first)] };
+        let lead = if r.chance(1, 3) { 0 } else { r.range(1, first as i64) as u32 };
+        let w0 = db.week[0].id;
+        let y = Schedule { id: uid(r), name: "y_rare".into(), values: vec![(w_rare.id, lead), (w0, 365 - lead)] };
+        db.day.push(d_rare);
+        db.week.push(w_rare);
+        // in front, so that loads picking the first yearly schedule use it
+        db.year.insert(0, y);
+    }
     db
 }
 
